@@ -101,7 +101,7 @@ def gen_case(rnd, spec):
             ops.append(["assign", rnd.choice(["filter", "plus", "empty", "same"]), rnd.randint(0, 11), gen_child(rnd, "denormal" if style == "denormal" else "random")])
         else:
             ops.append(["read"])
-    return {"kind": kind, "children": children, "ops": ops, "style": style, "twin": rnd.random() < 0.3}
+    return {"kind": kind, "children": children, "ops": ops, "style": style, "twin": rnd.random() < 0.3, "equal": rnd.random() < 0.15}
 
 
 def close(observed, exact, scale):
@@ -109,7 +109,21 @@ def close(observed, exact, scale):
     return abs(Fraction(observed) - exact) <= TOL * scale
 
 
+class SitePool(RecPool):
+    """Pools as value objects: two pools describing the same site compare (and hash) equal - they are still two children."""
+
+    def __eq__(self, other):
+        return isinstance(other, SitePool)
+
+    def __hash__(self):
+        return hash("site")
+
+
 def execute(case, result):
+    return _execute(case, result, SitePool if case.get("equal") else RecPool)
+
+
+def _execute(case, result, RecPool):
     global TOL
     TOL = Fraction(1, 10**9)
     if case.get("style") == "denormal":
@@ -118,6 +132,8 @@ def execute(case, result):
     from cobald.composite.weighted import WeightedComposite
 
     pools = [RecPool(**c) for c in case["children"]]
+    if case.get("equal") and len(pools) > 1:
+        result.count("cases_whose_children_all_compare_equal")
     try:
         if case["kind"] == "uniform":
             comp = UniformComposite(*pools)
@@ -247,8 +263,9 @@ def execute(case, result):
             model.append(comp.children[-1])
         elif kind == "remove":
             if children:
-                comp.children.remove(children[op[1] % len(children)])
-                model.remove(children[op[1] % len(children)])
+                # by position: the children may compare equal to each other
+                del comp.children[op[1] % len(children)]
+                del model[op[1] % len(children)]
         elif kind == "clear":
             comp.children.clear()
             del model[:]
